@@ -36,6 +36,25 @@ CLAIMED = {
             "Trusts vf/symx and the bilinearity lemma; numpy interface path; MultiRZ/PauliRot/PCPhase size-bounded; PSWAP "
             "declares no frequencies (no claim).",
             "DESIGN.md 4 C09", "E2"),
+    "C10": ("proof",
+            "contract on every applicable registered rule: ordered product of the emitted operators' matrices == the "
+            "operator's matrix; the real rule and the real matrix kernels run on exact symbolic parameters; "
+            "Laurent-polynomial normal form; float replay of refutations; labelled bounded stand-ins for data-dependent rules",
+            "Every registry entry that can be instantiated (named gates, Adjoint/Pow/C variants, variable-arity gates by "
+            "size; ~270 rule/operator pairs, ~620 obligations) is proved for all parameter values, global phase included; "
+            "zeroed+restored work wires via M.(I(x)|0>) == M_target(x)|0>. Size-bounded in wire counts / control "
+            "configurations / integer powers; templates and data-carrying operators are listed as skipped.",
+            "Trusts vf/symx, the textbook tensor embedding of gate matrices, is_applicable on a float twin; "
+            "DiagonalQubitUnitary rules and the %-reducing U2/U3 adjoint rules only have bounded float stand-ins.",
+            "DESIGN.md 4 C10", "E2"),
+    "C11": ("proof",
+            "contract on every applicable registered rule: emitted operator multiset == declared resources (or covered "
+            "by declared types when inexact), allocated work wires <= declared; parameter-independence of the emitted "
+            "skeleton established by running the real rule on symbolic parameters",
+            "Same instance space as C10. A rule that runs on symbolic parameters cannot branch on their values, so the "
+            "emitted skeleton compared with the declared resources holds for every parameter value; size-bounded in configuration.",
+            "Trusts abstractify()/resource_rep equality as the notion of resource type; resource parameters from a float twin.",
+            "DESIGN.md 4 C11", "E2"),
 }
 
 
